@@ -14,4 +14,33 @@ PROPS = {
                  "(IsTrunc/IsCeil/IsHalfEven) for all operands of either sign, overflow fails iff the rounded result exceeds the bit bound; "
                  "model tied to the Go code by bit-exact differential run.",
  },
+ "C13": {
+  "modules": ["OsmoVerif.Props.C13"],
+  "min_theorems": 20,
+  "fingerprints": ["Osmomath.MonotonicSqrt*", "Osmomath.SigFigRound", "Osmomath.Exp2", "Osmomath.exp2ChebyshevRationalApprox",
+                   "Osmomath.BigDec_LogBase2", "Osmomath.Pow", "Osmomath.PowApprox", "Osmomath.AbsDifferenceWithSign",
+                   "Osmomath.BinarySearch*", "Osmomath.ErrTolerance_*"],
+  "engines": [{"name": "math", "kind": "pure", "n": {"quick": 12000, "thorough": 150000}, "shards": {"quick": 4, "thorough": 16}}],
+  "rule": "edge values (0, 1 ulp, 1, 2, 2-ulp, 512, 512+ulp, powers of two +-1 ulp, perfect squares +-1, sig-fig ties) and "
+          "log-uniform random points per function; non-trivial = positive argument; distinct = distinct op lines",
+  "trusted_base": ["700-bit big.Float reference series (harness/cmd/pure/bigfloat.go) for the analytic error bounds",
+                   "cosmossdk.io/math LegacyDec.Power/ApproxSqrt (modelled)"],
+  "assumptions": ["PARTIAL: the continuum error bounds of Exp2 (rel 1e-18), LogBase2 (abs 1e-32), Pow (powPrecision) and the SigFigRound half-unit bound "
+                  "are NOT theorems; they are decided by the engine's oracle against 700-bit references on the sampled points only",
+                  "proved for all inputs: monotone sqrt least-ness + monotonicity, domain guards, Exp2 integer exactness/split, binary-search postconditions"],
+  "explanation": "theorems over the bit-exact model for the discrete clauses; the model is tied to the Go code by differential run (incl. 300-iteration log and 150000-iteration power series)",
+ },
+ "C14": {
+  "modules": ["OsmoVerif.Props.C14"],
+  "min_theorems": 8,
+  "fingerprints": ["CL.*"],
+  "engines": [{"name": "tick", "kind": "pure", "n": {"quick": 60000, "thorough": 400000}, "shards": {"quick": 4, "thorough": 4},
+               "env": {"thorough": {"VERIF_TICK_SWEEP": "1", "VERIF_TICK_SWEEP_STRIDE": "61"}}}],
+  "rule": "ticks on decade boundaries +-2, range edges +-3, uniform over the swap-reachable and the extended range, out of range; sqrt prices on / "
+          "one ulp around / strictly inside tick buckets; all four authorised spacings plus random ones; distinct = distinct op lines",
+  "trusted_base": ["osmomath arithmetic as proved in C12/C13"],
+  "assumptions": ["thorough tier additionally sweeps every 61st tick of the whole range per shard with the per-tick clauses (formula, strict monotonicity, "
+                  "round trip, bucket edges); VERIF_TICK_SWEEP_STRIDE=1 enumerates all 6.1e8 ticks (about 40 min on 16 cores)"],
+  "explanation": "theorems: out-of-range rejection, spacing rounding spec, bucket containment of the sqrt-price search; model tied by differential run",
+ },
 }
